@@ -436,6 +436,16 @@ analyze_extent (pixman_image_t       *image,
 	if (image->bits.width >= 0x7fff	|| image->bits.height >= 0x7fff)
 	    return FALSE;
 
+	/* An image without pixels is transparent everywhere; there is
+	 * nothing that a repeat mode could repeat (they would divide by the
+	 * size, or pad with a pixel that does not exist).
+	 */
+	if ((image->bits.width <= 0 || image->bits.height <= 0) &&
+	    image->common.repeat != PIXMAN_REPEAT_NONE)
+	{
+	    return FALSE;
+	}
+
 	if ((image->common.flags & FAST_PATH_ID_TRANSFORM) == FAST_PATH_ID_TRANSFORM &&
 	    extents->x1 >= 0 &&
 	    extents->y1 >= 0 &&
